@@ -1163,6 +1163,11 @@ EXTRACTORS["C12"] = EXTRACTORS["C12"] + [GEN_SRC["SrcIdxFaIter"]]
 GEN_SRC.update({n: gen_src(n) for n in ("SrcFmAccess",)})
 EXTRACTORS["C06"] = EXTRACTORS["C06"] + [GEN_SRC["SrcOcc"], GEN_SRC["SrcPrescan"], GEN_SRC["SrcLess"], GEN_SRC["SrcFmAccess"]]
 EXTRACTORS["C05"] = EXTRACTORS["C05"] + [GEN_SRC["SrcFmAccess"]]
+# gengff: the BED and GFF/GTF writers and the BED record accessors (C13) — dialect "gff" of tools/rs2lean_gengff.py (on dialect px
+# of rs2lean_genleft.py); Thm/C13.lean imports RbV.Thm.GenSrcBed / GenSrcGff and restates the theorems
+TRANSLATOR_MODULES.append("rs2lean_gengff")
+GEN_SRC.update({n: gen_src(n) for n in ("SrcBed", "SrcGff")})
+EXTRACTORS["C13"] = EXTRACTORS.get("C13", []) + [GEN_SRC[n] for n in ("SrcBed", "SrcGff")]
 
 
 def main():
